@@ -104,3 +104,13 @@ Theorem c18_option_tags_regular :
   Wiring.option_tags_irregular = [] /\ Wiring.option_flags_unregistered = [] /\ Wiring.option_flags_untagged = [].
 Proof. repeat split; vm_compute; reflexivity. Qed.
 Print Assumptions c18_option_tags_regular.
+
+(* c18_domain assumes the configured domains sorted longest first.  The ONLY statement in the non-test sources that
+   sorts or assigns a cookie-domain list, REGENERATED on this run, is validation's unconditional sort by decreasing
+   length (it sorts the caller's slice in place): the list every request sees is the sorted one, and nothing reorders
+   it afterwards. *)
+Theorem c18_domains_sorted_once :
+  Wiring.cookie_domains_writes =
+    [s "pkg/validation/cookie.go|validateCookie|top-level|sort.Slice(o.Domains,func(i,jint)bool{returnlen(o.Domains[i])>len(o.Domains[j])})"].
+Proof. vm_compute. reflexivity. Qed.
+Print Assumptions c18_domains_sorted_once.
